@@ -77,6 +77,9 @@ func (m *vpStopMon) finalChecks(e *kvElection, st *vpStore, kv *vpKV, cb *vpCall
 	vpAssert("C09.no-promote-after-stop", cb.promotes == m.promAtRet)
 	vpAssert("C09.no-op-after-stop", len(st.issued) == m.opsAtRet)
 	vpAssert("C09.threads-end", vpThreadsAlive() == 0)
+	for _, w := range st.watchers {
+		vpAssert("C09.watch-released", w.stopped || w.closed) // no store subscription survives the stop
+	}
 	if variant == vpStopPlain {
 		vpAssert("C09.returns-in-bound", m.retAt-m.calledAt <= int64(5*time.Second))
 	} else {
